@@ -286,4 +286,7 @@ def check(ctx, env):
     _c02.r2_7_u16_list(ctx, env.prog("full"), rule="R1.9")           # writer / reader agreement of the 16-bit list
     from . import c02
     c02.r2_3_layouts(ctx, env.prog("full"), rule="R1.7")
+    # the header reader accepts exactly what the header writer can produce (any 14-bit type word): a stricter bit test
+    # rejects encodable methods (0x800..0xFFF)
+    c02.r2_10_header_validation(ctx, env.prog("full"), rule="R1.12")
     ctx.extra["configs_checked"] = configs if len(configs) < 6 else "%d feature configurations" % len(configs)
